@@ -1377,10 +1377,28 @@ func (e *BigMessage) ReadAll() ([]byte, error) {
 	}
 	e.Client.bigMessage = nil
 
+	c := e.Client
+	if c.PauseTimeout != 0 {
+		// Abandon timer to prevent waking up the system for no good reason.
+		defer c.readConn.SetReadDeadline(time.Time{})
+	}
+
 	message := make([]byte, e.Size)
-	_, err := io.ReadFull(e.Client.bufr, message)
-	if err != nil {
-		return nil, err
+	for done := 0; done < len(message); {
+		if c.PauseTimeout != 0 {
+			err := c.readConn.SetReadDeadline(time.Now().Add(c.PauseTimeout))
+			if err != nil {
+				return nil, err // deemed critical
+			}
+		}
+		n, err := c.bufr.Read(message[done:])
+		done += n
+		if err != nil && done < len(message) {
+			if err == io.EOF {
+				err = io.ErrUnexpectedEOF
+			}
+			return nil, err
+		}
 	}
 	return message, nil
 }
